@@ -26,14 +26,24 @@ ASSUMPTIONS = ["central differences of D(q) with h=1e-4 (4th order) are accurate
 BUDGET = {"quick": 900, "thorough": 3400}
 
 XT = ["NaCl-prim-2", "hcp-2", "tri-P1-3", "rhomb-prim-2", "wurtzite-4", "mono-P21-2", "bct-conv-2", "CsCl-2", "diamond-prim-2", "ortho-P-2"]
-NACX = {"NaCl-prim-2", "wurtzite-4", "tri-P1-3", "rhomb-prim-2", "ortho-P-2", "CsCl-2"}
+NACX = {"NaCl-prim-2", "wurtzite-4", "tri-P1-3", "rhomb-prim-2", "ortho-P-2", "CsCl-2", "tri-P1-2", "zincblende-prim-2", "trig-P3-4"}
 
 
 def plan(tier, seed):
     groups = []
     n = 0
-    for name in XT:
-        S = [[2, 0, 0], [0, 2, 0], [0, 0, 2]] if name not in ("wurtzite-4",) else [[2, 0, 0], [0, 2, 0], [0, 0, 1]]
+    todo = [(name, [[2, 0, 0], [0, 2, 0], [0, 0, 2]] if name not in ("wurtzite-4",) else [[2, 0, 0], [0, 2, 0], [0, 0, 1]]) for name in XT]
+    if tier != "quick":
+        # more crystals on the isotropic supercell; anisotropic / sheared supercells only for crystals whose point group (1 or -1)
+        # every supercell keeps: phonopy symmetrises group velocities with the crystal's point group, and the spring model folded
+        # into a supercell of lower symmetry would not have that symmetry
+        for name in ["trig-P3-4", "mono-Pc-2", "zincblende-prim-2", "rutile-6", "mono-Pm-2", "ortho-P-1"]:
+            todo.append((name, [[2, 0, 0], [0, 2, 0], [0, 0, 2]] if name not in ("trig-P3-4", "rutile-6") else [[2, 0, 0], [0, 2, 0], [0, 0, 1]]))
+        for name in ["tri-P1-3", "tri-P1-2", "tri-P-1bar-2"]:
+            for S in ([[2, 0, 0], [0, 1, 0], [0, 0, 1]], [[1, 1, 0], [-1, 1, 0], [0, 0, 1]], [[3, 0, 0], [0, 2, 0], [0, 0, 1]], [[1, 0, 1], [0, 2, 0], [-1, 0, 1]], [[2, 0, 0], [0, 2, 0], [0, 0, 2]]):
+                if (name, S) not in todo:
+                    todo.append((name, S))
+    for name, S in todo:
         g = []
         for layout in ("full", "compact"):
             for nac in (None, "wang", "gonze") if name in NACX else (None,):
@@ -42,8 +52,8 @@ def plan(tier, seed):
                         g.append({"part": "ddm", "xtal": name, "S": S, "layout": layout, "nac": nac, "lang": lang})
                 for route in ("analytic", "fd-1e-4", "fd-1e-5") if nac != "gonze" else ("gonze-fd",):
                     g.append({"part": "gv", "xtal": name, "S": S, "layout": layout, "nac": nac, "route": route})
-        for gexp in (0.5, 1.7, -0.4):
-            for eps in (0.01, 0.003):
+        for gexp in ((0.5, 1.7, -0.4) if tier == "quick" else (0.5, 1.7, -0.4, 0.0, 3.0)):
+            for eps in ((0.01, 0.003) if tier == "quick" else (0.01, 0.003, 0.03)):
                 for explicit in (False, True):
                     g.append({"part": "gruneisen", "xtal": name, "S": S, "g": gexp, "eps": eps, "explicit_delta": explicit})
         n += len(g)
